@@ -82,7 +82,8 @@ def gen_cases(seed: int, max_params: int, per_case: int, budget: int) -> List[Di
                                   "fmt": rng.choice(["proxy_json", "proxy_json", "proxy_pickle", "json"]), "seed": len(cases),
                                   "shadow": len(cases) % 4 == 3,
                                   # every fifth case: the worker is built by the command line route (flag parsing and wiring)
-                                  "via": "cli" if len(cases) % 5 == 2 else "direct", "noprop": (len(cases) // 5) % 2 == 1})
+                                  "via": "cli" if len(cases) % 5 == 2 else ("api" if len(cases) % 5 == 4 else "direct"),
+                                  "noprop": (len(cases) // 5) % 2 == 1})
     if len(cases) > budget:
         # keep every (n<=2) case, sample the rest deterministically
         small = [c for c in cases if len(c["sig"]) <= 2]
